@@ -12,9 +12,20 @@ fn viol(oracle: &str, msg: String) -> Verdict {
 }
 
 pub fn gen_merge_case(rng: &mut Rng, tier: Tier) -> MergeCase {
-    let k = rng.weighted(&[5, 10, 25, 25, 15, 10, 10]);
+    let mut k = rng.weighted(&[5, 10, 25, 25, 15, 10, 10]);
+    // "any number of sources": one run in twenty merges many tiny sources, counts around powers of two
+    let many = rng.chance(1, 20);
+    if many {
+        k = match rng.below(4) {
+            0 => rng.urange(7, 70),
+            _ => {
+                let p = *rng.pick(&[8usize, 16, 32, 64]);
+                p + rng.urange(0, 2) - 1
+            }
+        };
+    }
     // shared key pool
-    let pool_n = rng.urange(1, if tier == Tier::Quick { 120 } else { 600 });
+    let pool_n = if many { rng.urange(1, 6) } else { rng.urange(1, if tier == Tier::Quick { 120 } else { 600 }) };
     let class = [gen::KeyClass::Alpha, gen::KeyClass::Counter, gen::KeyClass::Random, gen::KeyClass::Long][rng.usize_below(4)];
     let pool = gen::gen_keys(rng, pool_n, class, 1024);
     let mut sources = Vec::new();
@@ -25,7 +36,13 @@ pub fn gen_merge_case(rng: &mut Rng, tier: Tier) -> MergeCase {
         if rng.chance(1, 2) {
             knobs.block_size = Some(1024);
         }
-        let style = rng.below(6);
+        if many {
+            knobs.levels = knobs.levels.min(1);
+            if knobs.codec == 4 {
+                knobs.codec = 5;
+            }
+        }
+        let style = if many { *rng.pick(&[1u64, 1, 1, 4, 0]) } else { rng.below(6) };
         let mut ents = Vec::new();
         for (pi, key) in pool.iter().enumerate() {
             let take = match style {
@@ -79,16 +96,13 @@ pub fn check_c06(case: &Case, st: &mut Stats) -> Verdict {
     let union = model::merge_union(&sources);
     let calls = r.env.0.borrow().merge_calls.clone();
     let mut seen = std::collections::BTreeMap::new();
+    #[allow(unused_assignments, unused_variables)]
     let mut prev: Option<Vec<u8>> = None;
     for (k, vals) in &calls {
         if seen.insert(k.clone(), vals.clone()).is_some() {
             return viol("merge-called-twice", format!("merge function called more than once for key {:02x?}", k));
         }
-        if let Some(p) = &prev {
-            if p >= k {
-                return viol("merge-calls-out-of-order", format!("merge calls not in ascending key order at {:02x?}", k));
-            }
-        }
+        // (the order in which keys are handed to the merge function is not part of the statement)
         prev = Some(k.clone());
         match union.get(k) {
             None => return viol("merge-unknown-key", format!("merge function called for a key no source holds: {:02x?}", k)),
